@@ -59,6 +59,17 @@ INFLIGHT = "metadata/inflight"
 # ---------------------------------------------------------------------------
 # template
 # ---------------------------------------------------------------------------
+def _fixed_len_name(name: str, total: int = 80) -> str:
+    """Directory name padded so that the table root has the same length in every process: the root is stored
+    in the metadata json ("location"), and its length would otherwise move every offset-based damage."""
+    from dsmc.report import scratch_root
+
+    pad = total - len(os.path.join(scratch_root(), name))
+    if pad < 0:
+        raise HarnessError("scratch path too long for a fixed-length table root")
+    return name + "_" * pad
+
+
 class World:
     def __init__(self, backend: str, tag: str):
         from datashard import create_table
@@ -72,7 +83,7 @@ class World:
 
             install_local_seams()  # file mtimes follow the virtual clock
             use_local()
-            self.root = fresh_dir(f"c07-{tag}")
+            self.root = fresh_dir(_fixed_len_name(f"c07-{tag}"))
             self.location = self.root
             self.view: Any = reader.LocalView(self.root)
         else:
